@@ -103,6 +103,10 @@ ITEM_RE = re.compile(r'<li id="fn-(\d+)">(.*?)<a href="#fnref-(\d+)" class="foot
 
 def observe_html(m, doc):
     md = m.create_markdown(plugins=["footnotes", "table"])
+    if sum(map(ord, doc)) % 3 == 0:
+        # a TOC hook parses heading texts once more, before the inline pass of the document: numbering must not notice
+        from mistune.toc import add_toc_hook
+        add_toc_hook(md, 1, 6)
     out = md(doc)
     sec = out.count('<section class="footnotes">')
     body, _, tail = out.partition('<section class="footnotes">')
